@@ -104,3 +104,94 @@ Example C15_crash_example :
    Some (B "NEWW", md (B "NEWW"), [(B "c", B "blue")]); Some (B "NEWW", md (B "NEWW"), []);
    Some (B "NEWW", md (B "NEWW"), [(B "c", B "red")])].
 Proof. vm_compute. reflexivity. Qed.
+
+(* ---- kill -9 on the filesystem backends: the directory side ------------------------------ *)
+(* A key "e/f/g" is a file g in the directory e/f (Model/CrashDirs.v): PutObject makes the
+   missing parent directories before it writes, DeleteObject prunes the parents it left empty.
+   A tree is tidy when every directory has a file below it and every file's parents exist. *)
+From GF Require Import Model.CrashDirs Proofs.CrashDirProofs.
+
+(* an uninterrupted PutObject leaves a tidy tree tidy *)
+Theorem C15_fs_dirs_put_complete_tidy : forall t k, tidy t -> tidy (run_dops t (put_dops t k)).
+Proof. exact put_complete_tidy. Qed.
+Print Assumptions C15_fs_dirs_put_complete_tidy.
+
+(* an uninterrupted DeleteObject leaves a tidy tree tidy: the pruning loop removes every
+   parent the delete left without a file ... *)
+Theorem C15_fs_dirs_delete_complete_tidy : forall t k, tidy t -> tidy (run_dops t (del_dops t k)).
+Proof. exact del_complete_tidy. Qed.
+Print Assumptions C15_fs_dirs_delete_complete_tidy.
+
+(* ... and nothing else: what is left is exactly the other files and the directories that still
+   have one of them below *)
+Theorem C15_fs_dirs_delete_complete_exact : forall t k, tidy t -> memb k (t_files t) = true ->
+  let t' := run_dops t (del_dops t k) in
+  t_files t' = remb k (t_files t) /\
+  forall d, In d (t_dirs t') <-> In d (t_dirs t) /\ existsb (below d) (remb k (t_files t)) = true.
+Proof. exact del_complete_exact. Qed.
+Print Assumptions C15_fs_dirs_delete_complete_exact.
+
+(* whatever call of a PutObject a kill precedes, the only directories left without a file are
+   parents of the key being written *)
+Theorem C15_fs_dirs_put_crash_confined : forall t k n d, tidy t ->
+  In d (phantoms (run_dops t (firstn n (put_dops t k)))) -> In d (ancestors k).
+Proof. exact put_crash_confined. Qed.
+Print Assumptions C15_fs_dirs_put_crash_confined.
+
+(* the same for a killed DeleteObject *)
+Theorem C15_fs_dirs_delete_crash_confined : forall t k n d, tidy t ->
+  In d (phantoms (run_dops t (firstn n (del_dops t k)))) -> In d (ancestors k).
+Proof. exact del_crash_confined. Qed.
+Print Assumptions C15_fs_dirs_delete_crash_confined.
+
+(* no other key's file is touched at any crash point of either operation (in any tree) *)
+Theorem C15_fs_dirs_crash_keeps_other_files : forall t k n k', beq k k' = false ->
+  memb k' (t_files (run_dops t (firstn n (put_dops t k)))) = memb k' (t_files t) /\
+  memb k' (t_files (run_dops t (firstn n (del_dops t k)))) = memb k' (t_files t).
+Proof.
+  intros t k n k' H. split; [apply crash_keeps_other_files_gen | apply del_crash_keeps_other_files_gen]; exact H.
+Qed.
+Print Assumptions C15_fs_dirs_crash_keeps_other_files.
+
+(* PutObject is not crash-atomic on the directory side either: a kill after MkdirAll leaves
+   directories with no key below them (visible as a common prefix of a delimiter listing) *)
+Theorem C15_fs_dirs_put_crash_leaves_empty_directory_refuted :
+  exists t k n, tidy t /\ phantoms (run_dops t (firstn n (put_dops t k))) <> [].
+Proof. exact put_crash_leaves_empty_directory_refuted. Qed.
+Print Assumptions C15_fs_dirs_put_crash_leaves_empty_directory_refuted.
+
+(* nor is DeleteObject: the file is unlinked, its directory not yet pruned *)
+Theorem C15_fs_dirs_delete_crash_leaves_empty_directory_refuted :
+  exists t k n, tidy t /\ phantoms (run_dops t (firstn n (del_dops t k))) <> [].
+Proof. exact del_crash_leaves_empty_directory_refuted. Qed.
+Print Assumptions C15_fs_dirs_delete_crash_leaves_empty_directory_refuted.
+
+(* a complete PutObject of the same key after the kill leaves a tidy tree again *)
+Theorem C15_fs_dirs_next_put_repairs : forall t k n, tidy t ->
+  tidy (let t' := run_dops t (firstn n (put_dops t k)) in run_dops t' (put_dops t' k)).
+Proof. exact next_put_repairs. Qed.
+Print Assumptions C15_fs_dirs_next_put_repairs.
+
+Theorem C15_fs_dirs_next_put_repairs_after_delete : forall t k n, tidy t ->
+  tidy (let t' := run_dops t (firstn n (del_dops t k)) in run_dops t' (put_dops t' k)).
+Proof. exact next_put_repairs_after_delete. Qed.
+Print Assumptions C15_fs_dirs_next_put_repairs_after_delete.
+
+(* a store that never crashed is tidy (so the hypothesis above is that of a live server) *)
+Theorem C15_fs_dirs_live_tree_tidy : forall keys, tidy (tree_of keys).
+Proof. exact tree_of_tidy. Qed.
+Print Assumptions C15_fs_dirs_live_tree_tidy.
+
+(* non-vacuity: the tree of three keys, the calls a nested PUT and a nested DELETE make in it,
+   and the common prefixes a delimiter listing shows of the empty directories after one call *)
+Example C15_dirs_example :
+  let t0 := tree_of [B "a/b"; B "d"; B "p/q/r"] in
+  t0 = {| t_files := [B "a/b"; B "d"; B "p/q/r"]; t_dirs := [B "p/q"; B "p"; B "a"] |} /\
+  put_dops t0 (B "e/f/g") = [DMkdirAll (B "e/f/g"); DCreate (B "e/f/g")] /\
+  del_dops t0 (B "p/q/r") = [DUnlink (B "p/q/r"); DRmdir (B "p/q"); DRmdir (B "p")] /\
+  phantoms (run_dops t0 (firstn 1 (put_dops t0 (B "e/f/g")))) = [B "e/f"; B "e"] /\
+  phantom_prefixes (run_dops t0 (firstn 1 (put_dops t0 (B "e/f/g")))) = [B "e/"] /\
+  phantoms (run_dops t0 (firstn 2 (del_dops t0 (B "p/q/r")))) = [B "p"] /\
+  phantom_prefixes (run_dops t0 (firstn 1 (del_dops t0 (B "p/q/r")))) = [B "p/"] /\
+  phantoms (run_dops t0 (del_dops t0 (B "p/q/r"))) = [].
+Proof. vm_compute. repeat split; reflexivity. Qed.
